@@ -1,6 +1,7 @@
 (* C02 - no history of snapshot / delete / clean damages a remaining snapshot. *)
 From Coq Require Import List Arith Bool.
 From Replicat Require Import Model.Repo Proofs.RepoProofs Proofs.RepoLink Proofs.RepoTie Gen.RepoFacts.
+From Replicat Require Proofs.RepoPartial.
 Import ListNotations.
 
 (* every backend step of every command, in any interleaving of overlapping snapshot runs, with
@@ -37,6 +38,23 @@ Proof. exact exec_clean_is_a_history. Qed.
 Print Assumptions C02_exec_snapshot_is_a_history.
 Print Assumptions C02_exec_delete_is_a_history.
 Print Assumptions C02_exec_clean_is_a_history.
+
+(* histories issued through ONE long-lived session: whatever the session believes to be stored (a memo on the Repository object,
+   the answer of an earlier command), a snapshot that skips the uploads of chunks it believes present keeps every listed snapshot
+   complete exactly when the belief holds of the store at that moment; the code's belief is the store itself (the worker's only
+   source of [exists] is the backend's answer, asked per chunk: fact_worker_checks_then_uploads_then_records) *)
+Theorem C02_snapshot_with_sound_belief_safe : forall bel u f id tab st,
+  Inv st -> incl bel (chunks st) -> Inv (RepoPartial.snap_believing bel u f id tab st).
+Proof. exact RepoPartial.snap_with_sound_belief_safe. Qed.
+Theorem C02_belief_of_the_code_is_the_store : forall u f id tab st,
+  RepoPartial.snap_believing (chunks st) u f id tab st = fst (exec st (OSnap u f id tab)).
+Proof. exact RepoPartial.snap_believing_the_store. Qed.
+Theorem C02_snapshot_with_stale_belief_refuted :
+  exists bel u f id tab st, Inv st /\ ~ Inv (RepoPartial.snap_believing bel u f id tab st).
+Proof. exact RepoPartial.snap_with_stale_belief_refuted. Qed.
+Print Assumptions C02_snapshot_with_sound_belief_safe.
+Print Assumptions C02_belief_of_the_code_is_the_store.
+Print Assumptions C02_snapshot_with_stale_belief_refuted.
 
 Theorem C02_source_facts : all_repo_facts = true.
 Proof. exact repo_facts_hold. Qed.
